@@ -225,14 +225,14 @@ def sep_obligations(run, g, configs):
             if not bad:
                 run.discharged(name, 'E3xE2/sep', 'exec', 0.0, detail=('%d boundary pairs' % n) if prod.number % 120 == 0 else None)
     run.extra['separator_decisions'] = total
-    if any(c.startswith('minify') for c in configs):
-        # (the pretty printer writes its spaces unconditionally: only the minifying handlers decide by character class)
-        boundary_class_obligation(run)
+    # the pretty printer writes the space behind an operand unconditionally; it decides by character class only in front of the
+    # operand of typeof / void / delete (identifier start).  The minifying handlers decide by class on both sides.
+    boundary_class_obligation(run, ends=any(c.startswith('minify') for c in configs))
     run.trust('spec/fuse.py (token fusion per the ES5 longest-match rule)', 'LAST/FIRST token sets of the extracted grammar over-approximate '
               'the tokens that can meet at an adjacency; representatives per token class: identifiers %r, numbers %r' % (ID_REPS, NUM_REPS))
 
 
-def boundary_class_obligation(run):
+def boundary_class_obligation(run, ends=True):
     """The O-sep obligations replay the space handlers on representative spellings of each token class.  What makes the
     representatives sufficient on the left of a boundary: the handlers' `required_space` recognises EVERY character an identifier
     (or keyword, or number) of the real lexer can end in, when a word character follows.  Exhaustive over all code points, from
@@ -263,6 +263,8 @@ def boundary_class_obligation(run):
         run.discharged('class.required_space_covers_identifier_start', 'E3/charclass', 'exhaustive', (time.time() - t0) * 1000,
                        detail='%d identifier-start code points of the real t_ID pattern, all recognised on the right of a boundary' % charclass.size(start))
     name = 'class.required_space_covers_identifier_end'
+    if not ends:
+        return
     if missing:
         cp = missing[0][0]
         why = ('an identifier of this lexer may end in U+%04X (%d code points in %d ranges: %s) but required_space does not ask for a '
